@@ -71,7 +71,16 @@ torch.set_default_dtype(torch.float64)
 
 
 def T(a):
-    return torch.as_tensor(np.asarray(a, dtype=np.float64))
+    """A fresh tensor that does not share memory with the numpy array the oracle reads."""
+    return torch.tensor(np.array(a, dtype=np.float64))
+
+
+def share_QR(c):
+    """One pair of Q / R tensor objects per case or run, passed to every call as the documented
+    usage does (`ukf(x, y, u, P, Q, R)` in a loop): a filter that writes into them shows up as a
+    wrong posterior at the next call, because the oracle keeps reading the numpy originals."""
+    c["_Qt"], c["_Rt"] = T(c["Q"]), T(c["R"])
+    return c
 
 
 def N64(t):
@@ -347,9 +356,11 @@ def judge_valid(ck, who, regime, entry, Po, tol, wit):
              lambda: dict(wit(), got_P=Pg.tolist(), lambda_min=lam))
 
 
-def call_filter(ck, monitor, regime, entry, flt, c, wit, P=None, x=None, y=None, t=None, **kw):
-    args = (T(c["x"] if x is None else x), T(c["y"] if y is None else y), T(c["u"]),
-            T(c["P"] if P is None else P), T(c["Q"]), T(c["R"]))
+def call_filter(ck, monitor, regime, entry, flt, c, wit, t=None, ctor=False, **kw):
+    """One filter step; ctor=True: Q and R were given to the constructor and are not passed again."""
+    args = (T(c["x"]), T(c["y"]), T(c["u"]), T(c["P"]))
+    if not ctor:
+        args += (c["_Qt"] if "_Qt" in c else T(c["Q"]), c["_Rt"] if "_Rt" in c else T(c["R"]))
     if t is not None:
         kw["t"] = torch.tensor(float(t))
     return ck.call(monitor, regime, entry, lambda: flt(*args, **kw), witness=wit)
@@ -415,6 +426,7 @@ def one_step_linear(ck, rng, c, ks, t=None, who_suffix=""):
     s = c["sys"]
     n = c["n"]
     model = LinNLS(s)
+    share_QR(c)
     r = KR.ekf_step(s, c["x"], c["P"], c["Q"], c["R"], c["y"], c["u"], t) if (s.tv and t is not None) else \
         KR.kf_step(s.A, s.B, s.C, s.D, s.c1, s.c2, c["Q"], c["R"], c["x"], c["P"], c["y"], c["u"])
     r.setdefault("X", s.fmag(c["x"], c["u"]))
@@ -481,7 +493,11 @@ def run_linear(ck, rng, c, steps, which, k=None, tv_t0=None):
     stops being judged by (ii) once the bound exceeds 1e-6 relative)."""
     s, n = c["sys"], c["n"]
     model = LinNLS(s)
-    flt = pp.module.EKF(model) if which == "ekf" else pp.module.UKF(model)
+    c = share_QR(dict(c))
+    ctor = bool(rng.integers(2))                     # Q, R handed to the constructor or to every call
+    cls = pp.module.EKF if which == "ekf" else pp.module.UKF
+    flt = cls(model, Q=c["_Qt"], R=c["_Rt"]) if ctor else cls(model)
+    ck.mark(f"run/{which}/QR:{'constructor' if ctor else 'per-call'}")
     entry = "EKF.forward" if which == "ekf" else "UKF.forward"
     kv = None if which == "ekf" else (3 - n if k is None else k)
     xf, Pf = c["x"].copy(), c["P"].copy()            # filter's own
@@ -517,7 +533,7 @@ def run_linear(ck, rng, c, steps, which, k=None, tv_t0=None):
                 break
         wit = lambda **kw: witness(ci, step=i, t=t, k=k, filter=which, x0=c["x"].tolist(), P0=c["P"].tolist(), **kw)
         kw = {} if (which == "ekf" or k is None) else {"k": k}
-        ok, out = call_filter(ck, "run_step.mean", reg0, entry, flt, ci, wit, t=t, **kw)
+        ok, out = call_filter(ck, "run_step.mean", reg0, entry, flt, ci, wit, t=t, ctor=ctor, **kw)
         if not (ok and shape_ok(ck, "run_step.mean", reg0, entry, out[0], out[1], n, wit)):
             break
         regs = reg0 + f"/step:{'1' if i == 0 else ('2-10' if i < 10 else '11-50')}"
@@ -563,6 +579,7 @@ def run_linear(ck, rng, c, steps, which, k=None, tv_t0=None):
 
 def run_nonlinear(ck, rng, c, steps):
     s, n = c["sys"], c["n"]
+    c = share_QR(dict(c))
     model = SmoothNLS(s)
     ekf = pp.module.EKF(model)
     ukf = pp.module.UKF(model)
@@ -584,6 +601,8 @@ def step_nonlinear(ck, rng, c, ekf, ukf, tag, step=0):
     """EKF on a smooth nonlinear system against the documented recursion on the analytic
     linearisation; UKF (k >= 0) only for the validity of its covariance."""
     s, n = c["sys"], c["n"]
+    if "_Qt" not in c:
+        share_QR(c)
     r = KR.ekf_step(s, c["x"], c["P"], c["Q"], c["R"], c["y"], c["u"])
     if not well_posed(ck, "nl", r):
         return None
@@ -792,10 +811,10 @@ def pf_run(ck, rng, c, N, steps, idx):
     """Self-fed PF run: every step is judged against the exact posterior mean of the particle
     model whose prior is the PF's own previous output."""
     s, n = c["sys"], c["n"]
+    c = share_QR(dict(c))
     xf, Pf = c["x"].copy(), c["P"].copy()
     for i in range(steps):
         ci = dict(c, x=xf, P=Pf)
-        Cm = KR.f64(s.C)
         xi = xf + np.linalg.cholesky(n * Pf) @ rng.standard_normal(n)
         ci["y"] = KR.f64(s.g(xi, c["u"])) + np.linalg.cholesky(c["R"]) @ rng.standard_normal(c["p"])
         out = pf_linear_case(ck, rng, ci, N, "run", f"{idx}/{i}")
@@ -974,7 +993,7 @@ def run(ck):
                    f"{who}/A/singular", f"{who}/C/full", f"{who}/C/rankdef", f"{who}/C/zero", f"{who}/p>n", f"{who}/p<n",
                    f"{who}/y/model", f"{who}/y/outlier", f"{who}/x/far", f"{who}/tv", f"{who}/reltol<=1e-9",
                    f"run/{who}/len>=50", f"run/{who}/A:unstable", f"run/{who}/reltol<=1e-9",
-                   f"run_par/{who}/judged-at-step-50",
+                   f"run_par/{who}/judged-at-step-50", f"run/{who}/QR:constructor", f"run/{who}/QR:per-call",
                    *[f"{who}/{q}scale/{s}" for q in "PQR" for s in ("lo", "mid", "hi")])
     ck.require("ukf/k/None", "ukf/k/0", "ukf/k/neg", "ukf/k/neg-near--n", "ukf/k/pos", "ukf/k/pos-large",
                "ukf/centre-weight<0", "ukf/centre-weight>=0", "ukf_nl/valid",
